@@ -2,6 +2,7 @@
 from __future__ import annotations
 
 import io
+import tempfile
 import math
 import re
 import struct
@@ -510,6 +511,9 @@ def _decode_verdict(data: bytes, exp: List[Dict[str, Any]], stub_uuid: bool) -> 
     return ('agrees' if d is None else f'differs: {d}'), facts
 
 
+_RT = [0]
+
+
 def roundtrip(run, root: Any, exp: List[Dict[str, Any]], feat: Dict[str, Any], cfg: Dict[str, Any], case: Dict[str, Any],
               engine: str) -> Any:
     """Export under cfg, parse, compare with exp. Returns the parsed root when everything agreed, else None."""
@@ -524,7 +528,10 @@ def roundtrip(run, root: Any, exp: List[Dict[str, Any]], feat: Dict[str, Any], c
     if not binary:
         w['escaped_type_names'] = sorted({h_escape(n['type']) for n in exp})
         w['stub_uuids'] = sorted({v[1] for n in exp for a in n['attrs'] if a[1] == 'ELEMENT' for v in a[3] if v[0] == 'S'})
-    buf = io.BytesIO()
+    # one configuration in eight goes through real files (written to and parsed from a file on disk), the rest through BytesIO
+    _RT[0] += 1
+    real = _RT[0] % 8 == 0
+    buf: Any = tempfile.TemporaryFile('w+b') if real else io.BytesIO()
     try:
         if binary:
             root.export_binary(buf, cfg['version'], fmt_name, fmt_ver, mode)
@@ -540,7 +547,12 @@ def roundtrip(run, root: Any, exp: List[Dict[str, Any]], feat: Dict[str, Any], c
         run.violation(f'{label}: export raised {type(exc).__name__}: {exc}', witness=dict(w, traceback=traceback.format_exc()[-1500:]),
                       key=classify('export', exc, None, w), engine=engine, case=case)
         return None
-    data = buf.getvalue()
+    if real:
+        buf.seek(0)
+        data = buf.read()
+        run.count('real_file_roundtrips')
+    else:
+        data = buf.getvalue()
     run.count('binary_exports' if binary else 'kv2_exports')
     if binary and cfg['version'] < 3 and feat['time']:
         run.violation(f'{label}: a TIME attribute was written to a version that has no TIME type', key='time-written-before-v3',
@@ -575,7 +587,12 @@ def roundtrip(run, root: Any, exp: List[Dict[str, Any]], feat: Dict[str, Any], c
     w['parse_unicode_flag'] = flag
     excerpt = data[:1200].hex() if binary else data[:1500].decode('utf8', 'replace')
     try:
-        parsed, got_name, got_ver = Element.parse(io.BytesIO(data), unicode=flag)
+        if real:
+            buf.seek(0)
+            parsed, got_name, got_ver = Element.parse(buf, unicode=flag)
+            buf.close()
+        else:
+            parsed, got_name, got_ver = Element.parse(io.BytesIO(data), unicode=flag)
     except Exception as exc:
         run.violation(f'{label}: Element.parse rejected the library\'s own output: {type(exc).__name__}: {exc}',
                       witness=dict(w, stream=excerpt, traceback=traceback.format_exc()[-1200:]),
@@ -922,7 +939,7 @@ def main(run, shard=(0, 1)) -> None:
         name_attr_case(run)
     probe.report(run)
     probe.check_reached(run)
-    run.require('binary_parses', 'kv2_parses', 'independent_decodes_agree', 'to_kv1_calls', 'to_kv1_after_wire',
+    run.require('binary_parses', 'kv2_parses', 'real_file_roundtrips', 'independent_decodes_agree', 'to_kv1_calls', 'to_kv1_after_wire',
                 'graphs_with_sharing', 'graphs_with_cycle', 'graphs_with_self_loop', 'graphs_with_nameless_elements', 'stub_occurrences', 'null_in_array_occurrences',
                 'empty_array_occurrences', 'scalar_matrix_occurrences', 'name_needs_escape_occurrences',
                 'unicode_string_array_occurrences', 'unicode_type_occurrences', 'ascii_mode_refused_non_ascii',
